@@ -246,19 +246,16 @@ func (c *cache) tryRemoveNode(ptr, lockedPtr *node.Pointer) error {
 			if err := c.tryRemoveNode(n.LeafNode, lockedPtr); err != nil {
 				return err
 			}
-			n.LeafNode = nil
 		}
 		if n.Left != nil && n.Left.Node != nil {
 			if err := c.tryRemoveNode(n.Left, lockedPtr); err != nil {
 				return err
 			}
-			n.Left = nil
 		}
 		if n.Right != nil && n.Right.Node != nil {
 			if err := c.tryRemoveNode(n.Right, lockedPtr); err != nil {
 				return err
 			}
-			n.Right = nil
 		}
 
 		if c.lruInternalPos == ptr.LRU {
